@@ -43,10 +43,6 @@ pub struct Cfg {
     pub async_post: Vec<usize>,
     #[serde(default)]
     pub async_pc: Vec<usize>,
-    #[serde(default = "none_s")]
-    pub create_to: String,
-    #[serde(default = "none_s")]
-    pub recycle_to: String,
     #[serde(default = "yes")]
     pub has_runtime: bool,
     /// configure the timeouts on the pool and call get() instead of timeout_get()
@@ -54,9 +50,10 @@ pub struct Cfg {
     pub pool_level: bool,
     #[serde(default)]
     pub pool_wait: String,
-}
-fn none_s() -> String {
-    "none".into()
+    #[serde(default)]
+    pub pool_cto: String,
+    #[serde(default)]
+    pub pool_rto: String,
 }
 fn yes() -> bool {
     true
@@ -98,7 +95,8 @@ impl CallKind {
 
 #[derive(Clone, Debug, PartialEq, Eq)]
 pub enum Cmd {
-    StartGet(String),
+    /// wait mode, create timeout, recycle timeout
+    StartGet(String, String, String),
     StartReturn(u32),
     StartTake(u32),
     StartResize(usize),
@@ -497,7 +495,7 @@ pub(crate) fn panic_msg(p: Box<dyn std::any::Any + Send>) -> String {
     }
 }
 
-pub fn timeouts_for(cfg: &Cfg, mode: &str) -> Timeouts {
+pub fn timeouts_for(mode: &str, cto: &str, rto: &str) -> Timeouts {
     let fin = Some(Duration::from_secs(1));
     let of = |s: &str| match s {
         "finite" => fin,
@@ -510,8 +508,8 @@ pub fn timeouts_for(cfg: &Cfg, mode: &str) -> Timeouts {
             "timed" => fin,
             _ => None,
         },
-        create: of(&cfg.create_to),
-        recycle: of(&cfg.recycle_to),
+        create: of(cto),
+        recycle: of(rto),
     }
 }
 
@@ -587,15 +585,15 @@ fn task_main(ix: usize, sh: Arc<Shared>, cmd_rx: Receiver<Cmd>, rep_tx: Sender<(
         let cmd = c.recv();
         match cmd {
             Cmd::Exit => break,
-            Cmd::StartGet(mode) => {
+            Cmd::StartGet(mode, cto, rto) => {
                 let pool = sh.pool.lock().unwrap().clone();
                 let Some(pool) = pool else {
                     c.report(Report::Done(OpResult::Unit));
                     continue;
                 };
                 c.cur_op.set("get");
-                let to = timeouts_for(&sh.cfg, &mode);
-                fut = Some(if sh.cfg.pool_level && mode == sh.cfg.pool_wait {
+                let to = timeouts_for(&mode, &cto, &rto);
+                fut = Some(if sh.cfg.pool_level && mode == sh.cfg.pool_wait && cto == sh.cfg.pool_cto && rto == sh.cfg.pool_rto {
                     Box::pin(async move { pool.get().await })
                 } else {
                     Box::pin(async move { pool.timeout_get(&to).await })
@@ -825,7 +823,7 @@ impl World {
             b = b.runtime(Runtime::Tokio1);
         }
         if cfg.pool_level {
-            b = b.timeouts(timeouts_for(&cfg, &cfg.pool_wait));
+            b = b.timeouts(timeouts_for(&cfg.pool_wait, &cfg.pool_cto, &cfg.pool_rto));
         }
         for i in 1..=cfg.npre {
             b = b.pre_recycle(hook(truth.clone(), CallKind::Pre, i, cfg.async_pre.contains(&i)));
